@@ -573,7 +573,7 @@ func runScenario(sc *Scenario) (res result) {
 	mk := func(d *dir, side, sender, target string) sess.WireObs {
 		d.mu.Lock()
 		defer d.mu.Unlock()
-		o := sess.WireObs{K: "wire", ID: sc.ID + "/" + side, Kind: "stack", Virtual: false, Feasible: true, Gate: "", Order: []int{},
+		o := sess.WireObs{K: "wire", ID: sc.ID + "/" + side, Kind: "stack", Virtual: false, Feasible: true, Gate: "", Order: []int{}, ExpEcho: []int{},
 			ExpSender: sess.Ints([]byte(sender)), ExpTarget: sess.Ints([]byte(target)), Msgs: []sess.WireRec{}}
 		var all [][]byte
 		apps := 0
